@@ -7,10 +7,14 @@ excludes equality), regardless of unreachable blocks elsewhere in the region.  P
 iteration from the entry yields every reachable block exactly once, no unreachable block, and the
 entry block last."
 
-Decided by an exhaustive bounded stand-in (all CFGs up to a bound) against the path definitions;
-the table readers (dominates / strictly_dominates / _strictly_dominates_block) are under
-discharged contracts.  The fixpoint computation of DominanceInfo.__init__ and the stack machine of
-PostOrderIterator.__next__ are NOT proved (set-of-sets fixpoint / tuple stack: outside the subset).
+Post-order half: PostOrderIterator.__init__ / __next__ are under discharged contracts - an object invariant over the
+pair stack and the seen set (stacked blocks are seen, each at most once, not yet yielded; seen = yielded or pending, with a ghost
+position witness; expanded blocks have all successors seen; seen blocks are reachable; the start block stays at the bottom) gives:
+each block is yielded at most once, only reachable blocks, StopIteration only when yielded = seen = a successor-closed set
+containing the start block (hence exactly the reachable set), the start block last.  Termination is not proved.
+Dominance half: decided by the exhaustive bounded stand-in (all CFGs up to a bound) against the path definitions; the table readers
+(dominates / strictly_dominates / _strictly_dominates_block) are under discharged contracts, the set-of-sets fixpoint of
+DominanceInfo.__init__ is NOT proved.
 """
 
 from __future__ import annotations
@@ -26,7 +30,8 @@ from pyvc.values import Clause, VBool, VInt, VRef, VTuple, Vocab
 
 PROP = "C24"
 DOM = "xdsl/irdl/dominance.py"
-VOCAB = Vocab({"_dominance": "dict:ref:ref:set", "parent": "ref:Region"})
+VOCAB = Vocab({"_dominance": "dict:ref:ref:set", "parent": "ref:Region", "stack": "list:pair:Block,bool", "seen": "set:ref:Block"})
+PO = "xdsl/ir/post_order.py"
 
 
 def table(st, me, a, b):
@@ -101,19 +106,228 @@ class StrictBlock(Spec):
         return [C("ValueError-only-for-detached-or-different-regions", z3.And(x != y, z3.Or(old.sel("parent", x) == 0, old.sel("parent", x) != old.sel("parent", y))))]
 
 
+
+# =============================================================================== PostOrderIterator
+from pyvc.values import FST, SND, TUP2, VSeq  # noqa: E402
+
+I = z3.IntSort()
+Bo = z3.BoolSort()
+SUCC = z3.Function("successors_of", I, z3.ArraySort(I, I))  # block -> successor list of its terminator
+NSUCC = z3.Function("n_successors_of", I, I)
+HASTRAIT = z3.Function("last_op_is_registered_and_has_the_IsTerminator_trait", I, Bo)
+UNREG = z3.Function("last_op_is_of_an_unregistered_dialect", I, Bo)
+
+
+def ISTERM(b):
+    """Graph definition of an edge source: the block's last op is a terminator - an op of an unregistered dialect counts as one (its successors are control flow)."""
+    return z3.Or(HASTRAIT(b), UNREG(b))
+REACH = z3.Function("reachable_from_the_start_block", I, Bo)
+ENTRY = z3.Int("start_block")
+
+
+def po_axioms():
+    x, y, b, j = z3.Ints("pa!x pa!y pa!b pa!j")
+    return [A("pairing", forall([x, y], z3.And(FST(TUP2(x, y)) == x, SND(TUP2(x, y)) == y), patterns=[TUP2(x, y)])),
+            A("successor-counts", forall([b], NSUCC(b) >= 0)),
+            A("successors-are-blocks", forall([b, j], z3.Implies(z3.And(j >= 0, j < NSUCC(b)), SUCC(b)[j] != 0), patterns=[SUCC(b)[j]])),
+            A("reachability: the start block, and every successor (through a terminator) of a reachable block",
+              z3.And(REACH(ENTRY), forall([b, j], z3.Implies(z3.And(REACH(b), ISTERM(b), j >= 0, j < NSUCC(b)), REACH(SUCC(b)[j])))))]
+
+
+def po_inv(st, it, yielded, extra=None):
+    """
+    Object invariant of the iterator over the VIRTUAL stack = the stack list, plus the pair (block, visited) held in hand when `extra` is given.
+    """
+    S = st.sel("stack", it)
+    n0 = st.list_len(S)
+    seen = st.dict_dom(st.sel("seen", it))
+    if extra is None:
+        n = n0
+        el = lambda i: st.list_el(S, i)
+    else:
+        n = n0 + 1
+        el = lambda i: z3.If(i == n0, extra, st.list_el(S, i))
+    i, j, b, k = z3.Ints("po!i po!j po!b po!k")
+    on = lambda q: z3.And(q >= 0, q < n)
+    idx = st.ghost["idx"]  # ghost witness: position of a pending block on the virtual stack
+    return [
+        A("objects", z3.And(it != 0, S != 0, st.sel("seen", it) != 0, n0 >= 0)),
+        A("entries-are-pairs-of-a-block-and-a-flag", forall([i], z3.Implies(on(i), z3.And(el(i) == TUP2(FST(el(i)), SND(el(i))), z3.Or(SND(el(i)) == 0, SND(el(i)) == 1), FST(el(i)) != 0)))),
+        A("stacked-blocks-are-seen", forall([i], z3.Implies(on(i), seen[FST(el(i))]))),
+        A("a-block-is-on-the-stack-at-most-once", forall([i, j], z3.Implies(z3.And(on(i), on(j), i != j), FST(el(i)) != FST(el(j))))),
+        A("stacked-blocks-have-not-been-yielded", forall([i], z3.Implies(on(i), z3.Not(yielded[FST(el(i))])))),
+        A("yielded-blocks-are-seen", forall([b], z3.Implies(yielded[b], seen[b]))),
+        A("a-seen-block-is-yielded-or-pending-on-the-stack", forall([b], z3.Implies(seen[b], z3.Or(yielded[b], z3.And(on(idx[b]), FST(el(idx[b])) == b))), patterns=[seen[b]])),
+        A("expanded-blocks-have-all-successors-seen", forall([b, k], z3.Implies(z3.And(z3.Or(yielded[b], z3.Exists([i], z3.And(on(i), el(i) == TUP2(b, 1)))),
+                                                                                      ISTERM(b), k >= 0, k < NSUCC(b)), seen[SUCC(b)[k]]))),
+        A("seen-blocks-are-reachable", forall([b], z3.Implies(seen[b], REACH(b)))),
+        A("the-start-block-stays-at-the-bottom-and-is-yielded-last", z3.And(z3.Implies(n > 0, FST(el(0)) == ENTRY), z3.Implies(yielded[ENTRY], n == 0))),
+    ]
+
+
+class PostOrder(Spec):
+    """
+    PostOrderIterator.__init__ establishes, and every __next__ preserves, the object invariant above; __next__ returns a block that has not
+    been yielded before, and raises StopIteration exactly when nothing is pending - at which point (by the invariant) the yielded set is the
+    seen set, closed under successors, contains the start block and only reachable blocks, i.e. it IS the reachable set, each block once,
+    the start block last.  (The history argument - `yielded` collects the results - is the induction of modular verification.)
+    """
+
+    prop, file = PROP, PO
+    modifies = ["list#len", "list#el", "dict#dom", "dict#val", "stack", "seen"]
+    loop_ghosts = ["idx"]  # updated by the comprehension model inside the loop: havocked at the loop head like any written state
+
+    def __init__(self, method):
+        self.method = method
+        self.qualname = f"PostOrderIterator.{method}"
+
+        def b_fromkeys(ex, st, args, kw):
+            from pyvc.engine import Res
+
+            sq = args[0]
+            # dict.fromkeys(seq): the distinct elements of seq (first occurrences, in order) - here: a duplicate-free sequence with the same elements
+            d = VSeq(st.fresh("dedup", z3.ArraySort(I, I)), st.fresh_int("n_dedup"), "ref", "Block")
+            i, j, x = z3.Ints("fk!i fk!j fk!x")
+            st.assume(z3.And(d.n >= 0, d.n <= sq.n,
+                             forall([i, j], z3.Implies(z3.And(i >= 0, j >= 0, i < d.n, j < d.n, i != j), d.arr[i] != d.arr[j])),
+                             forall([i], z3.Implies(z3.And(i >= 0, i < d.n), z3.Exists([j], z3.And(j >= 0, j < sq.n, sq.arr[j] == d.arr[i])))),
+                             forall([j], z3.Implies(z3.And(j >= 0, j < sq.n), z3.Exists([i], z3.And(i >= 0, i < d.n, d.arr[i] == sq.arr[j]))))))
+            return [Res("val", d, st)]
+
+        def b_has_trait(ex, st, args, kw):
+            from pyvc.engine import Res
+
+            b = st.env["block"].z
+            v = kw.get("value_if_unregistered", True)
+            vz = z3.BoolVal(v) if isinstance(v, bool) else v.z
+            return [Res("val", VBool(z3.Or(HASTRAIT(b), z3.And(UNREG(b), vz))), st)]
+
+        self.calls = {"dict.fromkeys": Builtin(b_fromkeys, "dict.fromkeys(seq): duplicate-free sequence with the same elements (TRUSTED model of CPython)"),
+                      "IsTerminator": Builtin(lambda ex, st, a, k: [__import__("pyvc.engine", fromlist=["Res"]).Res("val", VRef(z3.IntVal(99), "trait"), st)], ""),
+                      "term.has_trait": Builtin(b_has_trait, "Operation.has_trait(trait, value_if_unregistered=True): the trait of a registered op, the default for an unregistered one")}
+
+    @property
+    def globals(self):
+        def getattr_(ex, st, base, attr):
+            if attr == "last_op":
+                return VRef(z3.If(z3.Or(ISTERM(base.z), st.fresh_bool("has-a-last-op")), z3.IntVal(7), z3.IntVal(0)), "Operation")  # only its terminator-ness and successors matter
+            if attr == "successors":
+                b = st.env["block"].z
+                return VSeq(SUCC(b), NSUCC(b), "ref", "Block")
+            return None
+
+        def isinst(ex, st, v, cls):
+            from pyvc.values import VGlobal, lift_bool
+
+            if isinstance(cls, VGlobal) and cls.text == "Operation":
+                return lift_bool(v.z != 0) if isinstance(v, VRef) else (v is not None)
+            return None
+
+        def expr(ex, st, text):
+            it = st.env["self"].z
+            seen = st.dict_dom(st.sel("seen", it))
+            if text == "[x for x in dict.fromkeys(term.successors) if x not in self.seen]":
+                b = st.env["block"].z
+                u = VSeq(st.fresh("unseen", z3.ArraySort(I, I)), st.fresh_int("n_unseen"), "ref", "Block")
+                i, j, x = z3.Ints("us!i us!j us!x")
+                # the filtered, duplicate-free successor list: distinct elements; x is in it iff x is a successor of the block and not yet seen
+                st.assume(z3.And(u.n >= 0,
+                                 forall([i, j], z3.Implies(z3.And(i >= 0, j >= 0, i < u.n, j < u.n, i != j), u.arr[i] != u.arr[j])),
+                                 forall([i], z3.Implies(z3.And(i >= 0, i < u.n), z3.And(z3.Not(seen[u.arr[i]]), z3.Exists([j], z3.And(j >= 0, j < NSUCC(b), SUCC(b)[j] == u.arr[i]))))),
+                                 forall([j], z3.Implies(z3.And(j >= 0, j < NSUCC(b), z3.Not(seen[SUCC(b)[j]])), z3.Exists([i], z3.And(i >= 0, i < u.n, u.arr[i] == SUCC(b)[j]))))))
+                # (definitional extension: a duplicate-free list has an inverse position function)
+                upos = st.fresh("unseen_pos", z3.ArraySort(I, I))
+                st.assume(forall([i], z3.Implies(z3.And(i >= 0, i < u.n), upos[u.arr[i]] == i)))
+                st.ghost["_upos"] = upos
+                return u
+            if text == "((x, False) for x in reversed(unseen))":
+                u = st.env["unseen"]
+                j, x = z3.Ints("rv!j rv!x")
+                upos = st.ghost["_upos"]
+                base = st.list_len(st.sel("stack", it))
+                in_u = lambda y: z3.And(upos[y] >= 0, upos[y] < u.n, u.arr[upos[y]] == y)
+                # ghost witness for the new pending blocks: reversed(unseen)[j] goes to position base + j
+                st.ghost["idx"] = z3.Lambda([x], z3.If(in_u(x), base + (u.n - 1 - upos[x]), st.ghost["idx"][x]))
+                return VSeq(z3.Lambda([j], TUP2(u.arr[u.n - 1 - j], 0)), u.n, "pair", "Block,bool")
+            return None
+
+        return {"__getattr__": getattr_, "__isinstance__": isinst, "__expr__": expr, "dict": __import__("pyvc.values", fromlist=["VGlobal"]).VGlobal("dict")}
+
+    def setup(self, st, inst):
+        st.ghost["yielded"] = z3.Const("yielded0", z3.ArraySort(I, Bo))
+        st.ghost["idx"] = z3.Const("idx0", z3.ArraySort(I, I))
+        it = st.declare_input("self", z3.Int("self"))
+        a = {"self": VRef(it, "PostOrderIterator")}
+        if self.method == "__init__":
+            a["block"] = VRef(ENTRY, "Block")
+        return a
+
+    def pre(self, st, a):
+        it = a["self"].z
+        if self.method == "__init__":
+            return po_axioms() + [A("objects", z3.And(it != 0, ENTRY != 0))]
+        return po_axioms() + po_inv(st, it, st.ghost["yielded"])
+
+    def inv(self, n, entry, st, a, lv):
+        it = a["self"].z
+        env = lv["env"]
+        blk, vis = env["block"].z, env["visited"].z
+        return po_inv(st, it, st.ghost["yielded"], TUP2(blk, vis)) + [A("same-containers", z3.And(st.sel("stack", it) == entry.sel("stack", it), st.sel("seen", it) == entry.sel("seen", it))),
+                                                                       A("flag", z3.Or(vis == 0, vis == 1))]
+
+    def ghost_update(self, old, st, a, res):
+        if self.method == "__next__" and res is not None:
+            return {"yielded": z3.Store(old.ghost["yielded"], res.z, True)}
+        if self.method == "__init__":
+            # nothing yielded yet; witness: the start block sits at position 0
+            return {"yielded": z3.K(I, z3.BoolVal(False)), "idx": z3.K(I, z3.IntVal(0))}
+        return {}
+
+    def post(self, old, st, a, res):
+        it = a["self"].z
+        if self.method == "__init__":
+            return [Clause(c.name, c.z, "property") for c in po_inv(st, it, st.ghost["yielded"])] + [
+                C("the-start-block-is-pending-and-seen", z3.And(st.list_len(st.sel("stack", it)) == 1, st.dict_dom(st.sel("seen", it))[ENTRY]))]
+        y0, y1 = old.ghost["yielded"], st.ghost["yielded"]
+        b = res.z
+        return [Clause(c.name, c.z, "property") for c in po_inv(st, it, y1)] + [
+            C("yields-a-block-that-was-not-yielded-before (each block at most once)", z3.Not(y0[b])),
+            C("yields-a-reachable-block", REACH(b)),
+            C("post-order: every successor of the yielded block has been seen (yielded earlier or an ancestor still pending)",
+              forall([z3.Int("pq!k")], z3.Implies(z3.And(ISTERM(b), z3.Int("pq!k") >= 0, z3.Int("pq!k") < NSUCC(b)), st.dict_dom(st.sel("seen", it))[SUCC(b)[z3.Int("pq!k")]])))]
+
+    def post_exc(self, old, st, a, exc):
+        if exc != "StopIteration" or self.method != "__next__":
+            return None
+        it = a["self"].z
+        x = z3.Int("pe!x")
+        seen = old.dict_dom(old.sel("seen", it))
+        y0 = old.ghost["yielded"]
+        return [C("stops-only-when-nothing-is-pending", old.list_len(old.sel("stack", it)) == 0),
+                C("at-the-end-every-seen-block-has-been-yielded", forall([x], seen[x] == y0[x])),
+                C("at-the-end-the-yielded-set-is-closed-under-successors (with the start block inside: it contains every reachable block)",
+                  forall([x, z3.Int("pe!k")], z3.Implies(z3.And(y0[x], ISTERM(x), z3.Int("pe!k") >= 0, z3.Int("pe!k") < NSUCC(x)), y0[SUCC(x)[z3.Int("pe!k")]])))]
+
+    def native_search(self, inst, seed):
+        r = N24.explore("quick", seed)
+        return r["failures"][0] if r["failures"] else None
+
+
 NATIVE = [("all-small-cfgs", N24.explore)]
 
 
 def make_specs(tier):
-    s = [Reader("dominates"), Reader("strictly_dominates"), StrictBlock()]
+    s = [Reader("dominates"), Reader("strictly_dominates"), StrictBlock(), PostOrder("__init__"), PostOrder("__next__")]
     for x in s:
         x.instances = [{}]
     return s
 
 
 ASSUMPTIONS = [
-    "DominanceInfo.__init__ (iterative set-of-sets fixpoint) and PostOrderIterator.__next__ (tuple stack) are NOT under discharged contracts: the "
-    "graph-level clauses are decided by the bounded stand-in only (exhaustive for <= 3 (quick) / 4 (thorough) blocks, random to 8 blocks)",
+    "DominanceInfo.__init__ (iterative set-of-sets fixpoint) is NOT under a discharged contract: the dominance clauses are decided by the bounded stand-in only "
+    "(exhaustive for <= 3 (quick) / 4 (thorough) blocks, random to 8 blocks)",
+    "PostOrderIterator: dict.fromkeys, the filtered list comprehension and the reversed generator are TRUSTED models (duplicate-free list with the same elements / exactly the unseen successors / "
+    "reversed pairs) bound to their exact source text; `yielded` is ghost history (the set of results of earlier __next__ calls); termination of __next__ is not proved",
     "block successors are read from the last op of each block when it is a terminator",
 ]
 
